@@ -61,18 +61,22 @@ fn deliveries(own: u64) -> Vec<Delivery> {
             }
         }
     }
-    // double tagging: own twice, own over each registered tag, each registered tag over own
-    for (_, r) in REG_TAGS {
-        let mut p = refcbor::head(6, own);
-        p.extend(refcbor::head(6, *r));
-        out.push(Delivery { prefix: p, tags: vec![own, *r], kind: "double-tag" });
-        let mut p = refcbor::head(6, *r);
+    // double tagging: every number of the palette over the own tag, and the own tag over every
+    // number of the palette (minimal heads), so that no outer or inner "convenience" tag is
+    // looked through
+    for n in tag_numbers(own) {
+        let mut p = refcbor::head(6, n);
         p.extend(refcbor::head(6, own));
-        out.push(Delivery { prefix: p, tags: vec![*r, own], kind: "double-tag" });
+        out.push(Delivery { prefix: p, tags: vec![n, own], kind: "double-tag" });
+        let mut p = refcbor::head(6, own);
+        p.extend(refcbor::head(6, n));
+        out.push(Delivery { prefix: p, tags: vec![own, n], kind: "double-tag" });
     }
-    let mut p = refcbor::head(6, 55799);
+    // triple: own tag thrice
+    let mut p = refcbor::head(6, own);
     p.extend(refcbor::head(6, own));
-    out.push(Delivery { prefix: p, tags: vec![55799, own], kind: "double-tag" });
+    p.extend(refcbor::head(6, own));
+    out.push(Delivery { prefix: p, tags: vec![own, own, own], kind: "double-tag" });
     out
 }
 
@@ -90,7 +94,7 @@ impl Engine for C14 {
     fn info(&self) -> EngineInfo {
         EngineInfo {
             level: "fault_enumeration",
-            rule: "Each run is one simulated message body of a taggable type (valid, of another taggable type's shape, with an element dropped/added, or with one corrupted byte after the array head). The body is delivered with every tag prefix of the palette - none, each of ~70 tag numbers (six registered, +-1 neighbours, 18 one-bit flips of the own tag, 0, 61, 55799, 2^32, 2^64-1, ...) at every representable head width (0/1/2/4/8 argument bytes), and 13 double tags - to ALL six tagged and ALL six untagged decoders. evaluations = deliveries. Oracle per delivery: tagged decoder B accepts iff exactly one tag, equal to B's registered number (independent table), over a body B's untagged decoder accepts (and the bytes are CBOR for coset's own Value decoder), with the same value; untagged decoders reject every tagged delivery; plus the wire monitor to_tagged_vec == head(6, REG) || to_vec. Non-trivial = body of at least 2 bytes; distinct = distinct body byte strings (64-bit hash).",
+            rule: "Each run is one simulated message body of a taggable type (valid, of another taggable type's shape, with an element dropped/added, or with one corrupted byte after the array head). The body is delivered with every tag prefix of the palette - none, each of ~70 tag numbers (six registered, +-1 neighbours, 18 one-bit flips of the own tag, 0, 61, 55799, 2^32, 2^64-1, ...) at every representable head width (0/1/2/4/8 argument bytes), and ~140 double tags (every palette number over and under the own tag) - to ALL six tagged and ALL six untagged decoders. evaluations = deliveries. Oracle per delivery: tagged decoder B accepts iff exactly one tag, equal to B's registered number (independent table), over a body B's untagged decoder accepts (and the bytes are CBOR for coset's own Value decoder), with the same value; untagged decoders reject every tagged delivery; plus the wire monitor to_tagged_vec == head(6, REG) || to_vec. Non-trivial = body of at least 2 bytes; distinct = distinct body byte strings (64-bit hash).",
             distinct_classes: &["(endpoint, delivery kind, outcome) triples", "(body type, body kind) pairs"],
             assumptions: &[
                 "exhaustive over the tag palette x head widths x 12 endpoints per message; sampled over message bodies",
